@@ -122,6 +122,10 @@ func init() {
 					tags = map[string]string{"k": "v2", "j": "w"}
 				case 2:
 					tags = map[string]string{"k": "v1", "resonate:timeout": "true"}
+				case 3:
+					if special {
+						tags = map[string]string{"k": "a<b&c>", "url": "http://h/p?x=1&y=2"} // characters JSON encoders may escape
+					}
 				}
 				to := s.now + pick(r, int64(5), 20, 60, 100000, 100000, 100000)
 				s.Submit("pop", reqCreate(id, nil, false, to, tags, ""))
@@ -157,6 +161,10 @@ func init() {
 					q.Tags = map[string]string{"k": "v1"}
 				case 1:
 					q.Tags = map[string]string{"k": "v2", "j": "w"}
+				case 2:
+					if special {
+						q.Tags = pick(r, map[string]string{"k": "a<b&c>"}, map[string]string{"url": "http://h/p?x=1&y=2"})
+					}
 				}
 				if len(ids) > 0 && r.Intn(8) == 0 {
 					q.Id = ids[r.Intn(len(ids))]
